@@ -106,6 +106,7 @@ type clEnv struct {
 	srvConn   net.Conn
 	handles   []*clHandle
 	hash      bitcoin.Hash32
+	umu       sync.Mutex // the universes are used from call goroutines too
 }
 
 func keyFromInt(n byte) bitcoin.Key {
@@ -119,9 +120,17 @@ func keyFromInt(n byte) bitcoin.Key {
 	return k
 }
 
-func (e *clEnv) clTx(k int64) *wire.MsgTx { return e.tu.TxRel(k, []int64{9000 + k}, false) }
+func (e *clEnv) clTx(k int64) *wire.MsgTx {
+	e.umu.Lock()
+	defer e.umu.Unlock()
+	return e.tu.TxRel(k, []int64{9000 + k}, false)
+}
 
-func (e *clEnv) clHeader(k int64) *wire.BlockHeader { return e.bu.Header(1000+k, 0, 1600000000+k, nil) }
+func (e *clEnv) clHeader(k int64) *wire.BlockHeader {
+	e.umu.Lock()
+	defer e.umu.Unlock()
+	return e.bu.Header(1000+k, 0, 1600000000+k, nil)
+}
 
 func (e *clEnv) keyHash(k int64) bitcoin.Hash32 {
 	if k >= 100 {
@@ -134,6 +143,8 @@ func (e *clEnv) keyOfHash(h *bitcoin.Hash32) int64 {
 	if h == nil {
 		return -1
 	}
+	e.umu.Lock()
+	defer e.umu.Unlock()
 	if id := e.tu.ID(h); id >= 0 {
 		return id
 	}
@@ -333,8 +344,10 @@ func (e *clEnv) routingObs() Obs {
 			case o := <-h.done:
 				h.gotObs, h.hasObs, h.dead = o, true, true
 				delivered = append(delivered, int64(i))
-			case <-time.After(3 * time.Second):
-				panic(harnessErr("call did not complete after its request was served"))
+			case <-time.After(400 * time.Millisecond):
+				// its request left the pending list although nothing was delivered to it: the call is
+				// stranded (it will time out); the pending list in the observation shows the anomaly
+				h.dead = true
 			}
 		}
 	}
@@ -352,7 +365,13 @@ func samePending(c *client.RemoteClient, p *client.VerifPending, k client.VerifK
 func (e *clEnv) serverMsg(op Op) *client.Message {
 	switch op.Str(0) {
 	case "tx":
-		return &client.Message{Payload: &client.Tx{ID: uint64(op.Int(1)), Tx: e.clTx(op.Int(2))}}
+		// one spent output per input: the wire format derives the output count from the input count
+		tx := e.clTx(op.Int(2))
+		outs := make([]*wire.TxOut, len(tx.TxIn))
+		for i := range outs {
+			outs[i] = wire.NewTxOut(uint64(1000+i), []byte{0x51})
+		}
+		return &client.Message{Payload: &client.Tx{ID: uint64(op.Int(1)), Tx: tx, Outputs: outs}}
 	case "update":
 		return &client.Message{Payload: &client.TxUpdate{ID: uint64(op.Int(1)), TxID: e.keyHash(op.Int(2))}}
 	case "insync":
